@@ -132,9 +132,11 @@ def epoch2 (system : Str) (vs : List (String × Str)) : Option Epoch := do
   let sat := system ++ zfill 2 (get vs "sat")
   pure ⟨sat.take 1, sat, yr4, mo, d, h, mi, s⟩
 
-/-- `Rinex2NavParser._parse_observation_epoch` (`system` comes from the file extension) -/
+/-- `Rinex2NavParser._parse_observation_epoch` (`system` comes from the file extension); a group of lines that starts
+with an empty line (`not any(line.values())`, e.g. the empty line at the end of a file) is ignored -/
 def head2 (system : Str) (vs : List (String × Str)) : Option Head :=
   if ((get vs "sat_clock_drift_rate").head?.map isAlpha).getD false then some .skipHeaderLine
+  else if vs.all (fun kv => kv.2.isEmpty) then some .skipHeaderLine     -- an empty line does not start a record
   else (epoch2 system vs).bind fun e => (clockOf vs).map fun cl => .ok e cl
 
 /-- seconds since the GPS epoch of the printed civil epoch.  `frac7` is the 7-digit fraction of
